@@ -269,7 +269,9 @@ def checkC10 (p : PProject) (impl : Json) : PropOut := Id.run do
         -- annotation-level well-formedness (unknown annotation, bad status code, …) is a separate ground for rejection
         let annotErr := (commonValidate "route" pm.m.annots).any (·.severity = 1) ||
           -- an alias that is not a string is a malformed annotation, reported by the link validator as an error
-          pm.m.annots.any (fun a => a.name = "Path" && aliasOf a = .bad)
+          pm.m.annots.any (fun a => a.name = "Path" && aliasOf a = .bad) ||
+          -- a method the generated router could not call (C09's ground for rejection, not C10's)
+          !isExportedName pm.m.name
         -- the driver's de-duplicated link findings and the proved model agree on emptiness
         if (linkFindings (ctrlRouteOf c.annots) pm.m).isEmpty != (linkValidate (ctrlRouteOf c.annots) pm.m).isEmpty then mfails := mfails ++ [s!"link-findings-vs-model:{c.name}.{pm.m.name}"]
         if wl.isEmpty && rejected && !annotErr then
@@ -343,7 +345,7 @@ def checkC18 (p : PProject) (impl : Json) : PropOut := Id.run do
     let covered := jstrD d "covered"
     let annots : List Annot := (p.controllers.filter (·.name = ctrl)).flatMap fun c =>
       if ent = "" then c.annots else (c.methods.filter (·.m.name = ent)).flatMap (·.m.annots)
-    if valueCodes.contains code then
+    if valueCodes.contains code && !((jstrD d "_message").startsWith "Method '") then
       nValue := nValue + 1
       if !(annots.any (·.value = covered)) then fails := fails ++ [s!"value-range-text:{ctrl}.{ent}:{code}:'{covered}'"]
     -- the link validator's complaint about a property VALUE (an alias that is not a string) covers the properties
